@@ -1202,8 +1202,7 @@ def int_from_bytes_model(ip, args, kw):
     s = ip.seq_view(b) if isinstance(b, (Loc, SV)) else lift(b)
     n = simp(z3.Length(s.e))
     if not z3.is_int_value(n):
-        sp = ip.reg.get_spec('be_int' if order == 'big' else 'le_int')
-        return _M().call_spec(ip, sp, [s], {})
+        raise Unsupported("int.from_bytes of a string of symbolic length")
     return bytes_int(ip, s, n.as_long(), '<' if order == 'little' else '>') if n.as_long() > 0 else 0
 
 
